@@ -6,6 +6,7 @@ file matches, repository list entries, repository names or URL templates of repo
 and a request without a tenant sees no tenant-owned repositories; only the internal system context sees all of them.
 -/
 import ZoektModel.C23.Lemmas
+import ZoektModel.Generated.C23Fields
 namespace ZoektModel.C23
 
 /-- where a file match comes from: a live document of a live repository that the access predicate admits, and
@@ -141,5 +142,66 @@ theorem no_tenant_sees_nothing (sh : Shard) (early : Bool) (maxRepo : Nat) (mode
     intro w hw
     obtain ⟨r, _, hacc, _⟩ := (list_filtered _ sh mode early field).2 w hw
     simp [hasAccess_none] at hacc
+
+/-! ### non-interference -/
+
+/-- **non-interference, search**: the whole result of a search (files, RepoURLs, LineFragments) is unchanged when every
+    repository the context may not access — its name, id, URL templates, sub-repositories, and the names, tombstones and
+    match verdicts of its documents — is replaced by blanks (`erase`).  Nothing of an inaccessible repository can
+    therefore show in any output channel of the model. -/
+theorem noninterference_search (acc : Int → Bool) (sh : Shard) (early : Bool) (maxRepo : Nat) :
+    search acc (erase acc sh) early maxRepo = search acc sh early maxRepo := search_erase acc sh early maxRepo
+
+/-- **non-interference, list** (both simplification outcomes, both field modes, including the statistics) -/
+theorem noninterference_list (acc : Int → Bool) (sh : Shard) (mode : ListMode) (early : Bool) (field : Field) :
+    list acc (erase acc sh) mode early field = list acc sh mode early field := list_erase acc sh mode early field
+
+/-! ### every field of the result types is accounted for (generated table `Gen.c23Fields`, read from api.go on every run) -/
+
+/-- Go types that cannot carry repository names, URLs or content: counters, scores, durations, flags -/
+def counterTypes : List String := ["int", "int64", "uint32", "uint64", "float64", "bool", "time.Duration", "FlushReason"]
+
+/-- which theorem accounts for a field that *can* carry repository data.  A field added to one of these structs is
+    `UNCOVERED` until someone decides which theorem accounts for it — `fields_covered` then fails at build time. -/
+def coveredBy : List ((String × String) × String) := [
+  (("SearchResult", "Stats"), "only counters (stats_are_counters)"),
+  (("SearchResult", "Progress"), "only counters (stats_are_counters)"),
+  (("SearchResult", "Files"), "files_filtered"),
+  (("SearchResult", "RepoURLs"), "maps_filtered"),
+  (("SearchResult", "LineFragments"), "maps_filtered"),
+  -- a FileMatch is built from the admitted document and `md := repoMetaData[repos[doc]]` only (files_filtered: FileFrom);
+  -- the model carries Repository/RepositoryID/FileName, the other fields are checked by the taint oracle of the harness
+  (("FileMatch", "FileName"), "files_filtered"),
+  (("FileMatch", "Repository"), "files_filtered"),
+  (("FileMatch", "SubRepositoryName"), "files_filtered (by correspondence: taint oracle)"),
+  (("FileMatch", "SubRepositoryPath"), "files_filtered (by correspondence: taint oracle)"),
+  (("FileMatch", "Version"), "files_filtered (by correspondence: taint oracle)"),
+  (("FileMatch", "Language"), "files_filtered (by correspondence: taint oracle)"),
+  (("FileMatch", "Debug"), "files_filtered (by correspondence: taint oracle)"),
+  (("FileMatch", "Branches"), "files_filtered (by correspondence: taint oracle)"),
+  (("FileMatch", "LineMatches"), "files_filtered (by correspondence: taint oracle)"),
+  (("FileMatch", "ChunkMatches"), "files_filtered (by correspondence: taint oracle)"),
+  (("FileMatch", "Content"), "files_filtered (by correspondence: taint oracle)"),
+  (("FileMatch", "Checksum"), "files_filtered (by correspondence: taint oracle)"),
+  (("RepoList", "Repos"), "list_filtered"),
+  (("RepoList", "ReposMap"), "list_filtered"),
+  (("RepoList", "Stats"), "only counters (stats_are_counters), summed over the admitted entries"),
+  -- entry i of Repos is `&d.repoListEntry[i]` for an admitted i (list_filtered)
+  (("RepoListEntry", "Repository"), "list_filtered"),
+  (("RepoListEntry", "IndexMetadata"), "list_filtered"),
+  (("RepoListEntry", "Stats"), "list_filtered"),
+  (("MinimalRepoListEntry", "Branches"), "list_filtered")
+]
+
+def classify (f : String × String × String) : String :=
+  if counterTypes.contains f.2.2 then "counter" else (coveredBy.lookup (f.1, f.2.1)).getD "UNCOVERED"
+
+/-- **generated-table obligation**: every field of `SearchResult`, `FileMatch`, `RepoList`, `RepoListEntry`,
+    `MinimalRepoListEntry` (as they are in api.go now) is either a counter or accounted for by one of the theorems. -/
+theorem fields_covered : ∀ f ∈ Gen.c23Fields, classify f ≠ "UNCOVERED" := by decide
+
+/-- the statistics structs embedded in the results have only counter fields -/
+theorem stats_are_counters :
+    ∀ f ∈ Gen.c23Fields, ["Stats", "Progress", "RepoStats"].contains f.1 = true → counterTypes.contains f.2.2 = true := by decide
 
 end ZoektModel.C23
